@@ -354,6 +354,51 @@ pub fn run<D: Dec>(prop: &str, rep: &mut Report) {
         }
     }
 
+    // ---------------------------------------------------------------- (b1'') a stuck or repeated prefix byte: P^k · s1 · P^j · s2 for every prefix
+    //      byte P, run lengths k, j = 0..12 and sequences s1, s2 that share codes across contexts (whatever accumulates the bytes
+    //      of a sequence must start afresh after the errors a run of prefixes produces)
+    {
+        let typist = Typist::new(set, &r);
+        let prefixes: Vec<u8> = if set == 2 { vec![0xE0, 0xE1, 0xF0] } else { vec![0xE0, 0xE1] };
+        // sequences whose last byte also occurs under another prefix context, plus the bursts
+        let mut by_last: BTreeMap<u8, Vec<Vec<u8>>> = BTreeMap::new();
+        for sq in typist.make.iter().chain(typist.brk.iter()) {
+            by_last.entry(*sq.last().unwrap()).or_default().push(sq.clone());
+        }
+        let mut sample: Vec<Vec<u8>> = Vec::new();
+        for (_, v) in by_last.iter().filter(|(_, v)| v.len() >= 2) {
+            if sample.len() < 14 {
+                sample.extend(v.iter().take(3).cloned());
+            }
+        }
+        sample.extend(special_sequences(set).into_iter().take(4));
+        sample.truncate(20);
+        let mut out = ShardOut::default();
+        for p in prefixes.iter() {
+            for k in 0..=12usize {
+                for j in 0..=12usize {
+                    for (a, s1) in sample.iter().enumerate() {
+                        // s2: the sequences that follow s1 in the sample (keeps the sweep quadratic in run lengths, linear in pairs)
+                        for s2 in sample.iter().skip(a).take(4) {
+                            let mut bytes: Vec<u8> = vec![*p; k];
+                            bytes.extend(s1);
+                            bytes.extend(std::iter::repeat(*p).take(j));
+                            bytes.extend(s2);
+                            bytes.extend(s2);
+                            lockstep_bare::<D>(prop, set, &r, &bytes, &mut out);
+                        }
+                    }
+                }
+            }
+        }
+        rep.count("repeated_prefix_run_histories", out.histories);
+        rep.evaluations += out.bytes;
+        rep.panics += out.panics;
+        for (sg, what, rp) in out.violations {
+            rep.violate(sg, what, rp);
+        }
+    }
+
     // ---------------------------------------------------------------- (b2) every ordered triple of real-world bursts, from a fresh decoder
     {
         let sp = special_sequences(set);
